@@ -7,4 +7,5 @@ func genAll(repo string) {
 	genGeom(repo)
 	genManager(repo)
 	genFileLog(repo)
+	genMapLog(repo)
 }
